@@ -142,7 +142,7 @@ int UTIL_requireUserConfirmation(const char* prompt, const char* abortMsg,
     UTIL_DISPLAY("%s", prompt);
     ch = getchar();
     result = 0;
-    if (strchr(acceptableLetters, ch) == NULL) {
+    if ((ch == 0) || (ch == EOF) || (strchr(acceptableLetters, ch) == NULL)) {   /* strchr() finds the terminating NUL too */
         UTIL_DISPLAY("%s \n", abortMsg);
         result = 1;
     }
